@@ -177,7 +177,9 @@ def run_op(ns, case):
         ref, rej = None, True
     except (ZeroDivisionError, FloatingPointError):
         return {"counters": {"ref_domain_error": 1}}
-    ts = [ns.Tensor(x.copy()) for x in xs]
+    storage = ["plain", "plain", "transposed", "strided", "plain", "shared-base"][case["seed"] % 6]
+    pool_ = {}
+    ts = [ns.Tensor(gen.as_storage(x.copy(), storage, None, pool_)) for x in xs]        # same values, possibly a Fortran-ordered / strided view
     if a.get("alias"):
         ts = [ts[0]] * len(ts)
     try:
@@ -230,7 +232,7 @@ def run_op(ns, case):
     key = (op.name, case["form"], argclass, catalog.shape_class(case["shapes"]), case["dtype"], verdict) if nontrivial else None
     counters[f"verdict:{verdict}"] = 1
     return {"key": key, "viol": viol, "counters": counters,
-            "cover": {"ops": [op.name], "forms": [f"{op.name}.{case['form']}"], "verdicts": [verdict], "argclasses": [sigbase]}}
+            "cover": {"ops": [op.name], "forms": [f"{op.name}.{case['form']}"], "verdicts": [verdict], "argclasses": [sigbase], "storage": [storage]}}
 
 
 def run_ctor(ns, case):
